@@ -236,8 +236,11 @@ Arguments h_dur {A} _.
 Arguments hyb_empty {A}.
 
 (* ------------------------------------------------------------------ DiskCache *)
-(* Directory = association list  key -> (value, ctime)  (one <md5(key)>.pkl per key; the order of the list
-   stands for the arbitrary order of glob()); ctime is a logical clock advanced by every write.      *)
+(* Directory = association list  key -> (value, ctime)  (one <md5(key)>.pkl per key); ctime is a logical clock
+   advanced by every write.  The order of the list stands for the order in which glob() reports the files, which
+   is arbitrary and - ctimes being pairwise distinct - irrelevant for `min(files, key=ctime)` (proved:
+   evict_loop_ok holds for every order); the model keeps the list in order of writing (a rewritten file moves
+   to the end), so that it can be compared directly with the creation-ordered specification. *)
 Record disk := mkDisk {
   d_files : list (nat * (nat * nat));
   d_clock : nat;
@@ -285,7 +288,7 @@ Section Disk.
     end.
 
   Definition disk_put (st : disk) (k v : nat) : disk * out :=
-    let files := aset k (v, d_clock st) (d_files st) in
+    let files := adel k (d_files st) ++ [(k, (v, d_clock st))] in
     let clock := S (d_clock st) in
     let (l1, o) := if with_lru then lru_put lru_size (d_lru st) k v else (d_lru st, ONone) in
     if is_raised o then (mkDisk files clock l1 (d_max st), o)
